@@ -75,12 +75,19 @@ REGISTRY = {
                             "returned count, awaiting / body-due flags and recorded reason per cell (R11.1); late-100 table of the "
                             "response reader for awaiting in {true,false} (R11.3); successor edges and absence of reachable panics "
                             "in the successor states from the typestate fixpoint (R11.2)."),
+    "C07": dict(modules=["rules_c07"], min_instances=10, trusted_base=TB,
+                explanation="Each decoder handler is interpreted abstractly (E4) from its state with the CRLF finder as a pure "
+                            "predicate whose result classes (none / at 0 / later) are the token classes: the extracted (state, "
+                            "token) -> (next state, consumed delta, produced delta, continue flag, error) relation is compared with "
+                            "the chunked-coding automaton (R07.1); dispatch table; bounds and cursor alignment of the data copy "
+                            "(R07.2); outer loop exits and windows (R07.3); ended/boundary predicates (R07.4); size line radix and "
+                            "extension cut (R07.5); structure of the CRLF finder (R07.6); no zero-consumption cycle (R07.7)."),
 }
 
 _PENDING = "check not built yet in this round (planned static rules: DESIGN.md section 4)"
 NOT_APPLICABLE = {
     "C01": _PENDING, "C02": _PENDING, "C03": _PENDING, "C05": _PENDING,
-    "C07": _PENDING, 
+    
     "C12": _PENDING, "C16": _PENDING,
     "C18": _PENDING, "C20": _PENDING,
     "C19": "quantitative liveness claim over two run-time lengths and hex-digit counts: no clause is visible in "
@@ -89,6 +96,14 @@ NOT_APPLICABLE = {
 }
 
 MANIFEST_META = {
+    "C07": dict(
+        technique="abstract interpretation over MIR: extracted transition relation vs automaton; order reasoning for bounds",
+        design_ref="DESIGN.md section 4 C07",
+        level_text="The decoder's transition relation (not its behaviour on streams) is extracted from the MIR and equals the "
+                   "chunked-coding automaton cell by cell, including consumed/produced deltas and the stop-after-chunk flag that "
+                   "makes boundary stopping chunk-exact; data copy bounds are proven for all lengths.",
+        level_note="NOT decided: that find_crlf finds the right CRLF beyond its structure, hex parsing (std), and the stream-level "
+                   "equality (composition over all inputs/cuts). Outer loop accumulation is checked structurally."),
     "C11": dict(
         technique="abstract interpretation over MIR (outcome tables) + typestate fixpoint results",
         design_ref="DESIGN.md section 4 C11",
